@@ -9,26 +9,34 @@ from . import common, e2
 PID = "C09"
 PROPS_FILE = "props/C09.v"
 MODEL_TARGETS = ["model/GraphDump.vo", "model/GraphInv.vo"]
-RULE = ("E2: a seeded online generator drives the real Workflow + Scheduler (in-memory SQLite) through the "
-        "transaction alphabet of model/Graph.v following the executor / director / startup / finalize "
-        "protocols; after every transaction the canonical dump (nodes with creator and detached flag, file "
-        "rows, step rows, dependency edges with dynamic flag, step_hash rows, env_var rows) and the outcome "
-        "class (ok / usage error / internal error) are compared with the Gallina model evaluated inside Coq; "
-        "the boolean invariant inv_b is evaluated on every prefix; the real Trellis/Workflow consistency "
-        "check runs in strict mode at the end of every trace. A transaction is non-trivial when it changed "
-        "the dump or was rejected; distinct by (operation, resulting dump)")
+RULE = ("E2: a seeded online generator drives the real Workflow + Scheduler (in-memory SQLite, dispatch through the real "
+        "pop_next_job) through the transaction alphabet of model/Graph.v following the executor / director / startup / "
+        "finalize protocols (rejected requests, crashes, detached-but-running steps, identical re-declaration = full "
+        "recycle, outputs reproduced identically, a directed scenario: succeed - made pending - dispatched - detached in "
+        "flight by the creator's rerun - completes - re-declared, volatile output renamed while a new step consumes the old "
+        "path); after every transaction the canonical dump (nodes with creator and detached flag, file rows, step rows, "
+        "dependency edges with dynamic flag, step_hash rows, env_var rows) and the outcome class (ok / usage error / "
+        "internal error or non-terminating statement) are compared with the Gallina model evaluated inside Coq; inv_b, "
+        "inv_full_b (I4, I5c), inv_succeeded_b, inv_running_nohash_b and the protocol predicate protocol_ok_run are "
+        "evaluated on every prefix; fixed witness traces of the findings D16, D31 and of the hold protocol, and the D17 "
+        "scenario through the real Executor.run_hash_job, are replayed on every run; the real Trellis/Workflow consistency "
+        "check runs in strict mode at the end of every trace. A transaction is non-trivial when it changed the dump or was "
+        "rejected; distinct by (operation, resulting dump)")
 TRUSTED_BASE = [
-    "Coq 8.16.1 kernel; vm_compute in Examples and in the correspondence evaluation; no native_compute",
+    "Coq 8.16.1 kernel; vm_compute in Examples/witnesses and in the correspondence evaluation; no native_compute",
     "Print Assumptions: Closed under the global context for every C09 theorem",
     "hand-written model coq/model/Graph.v (trellis.py, workflow.py, file.py, step.py, the job transactions of "
-    "executor.py, startup.reset_interrupted_steps), tied to the code by the E2 correspondence only",
+    "executor.py, startup.reset_interrupted_steps), tied to the code by the E2 correspondence; its constant tables "
+    "(enums, _HASH_TRANSITIONS, trigger and CHECK tables) by translator/gen_graph.py + proofs/GraphTables.v",
     "harness/e2.py: the transaction bodies of the executor are re-composed from the same Workflow/Step calls "
-    "(read from executor.py), not executed through Executor itself",
+    "(read from executor.py), not executed through Executor itself (except the D17 hash-job scenario)",
+    "the build-loop protocol (protocol_ok) under which I4/I5c are proved is validated on every executed trace, not proved",
     "no extraction: the model is evaluated inside Coq",
 ]
 ASSUMPTIONS = [
     "SQLite executes triggers, CHECK constraints and transactions as documented",
     "not modelled: glob registrations, resources, targets, static trees, durations, scheduling caches",
+    "creators that are not the root or a step node are outside the validated domain of the tie",
 ]
 
 
